@@ -483,7 +483,30 @@ def run(ctx):
         if not okc or off != n_ or not (fin.is_const() and fin.lo == val):
             bad.append('%d bytes: the CRC primitive saw (running value, offset, length) = %s' % (n_, calls[:4]))
     ctx.check(not bad, R7, 'crc32_calc::process_bytes:whole-range-once-in-order-chained', '; '.join(bad[:2]), pbf.where)
-    ctx.floor(R7, 2)
+    # the deadline is one 64-bit signed field: every reader of it (load and gc) reads it into the type the writer stored
+    def first_read_type(f):
+        for i in sorted(f.calls(), key=lambda j: (f.N(j)['l'], f.N(j)['c'])):
+            if q.short_of(f.callee(i) or '') == 'read_all' and len(f.args(i)) >= 2:
+                refs = [x for x in f.subtree_refs(f.args(i)[1]) if x.startswith('v:')]
+                for j in f.all_nodes():
+                    if f.N(j)['k'] == 'DeclStmt':
+                        for d_ in f.N(j)['decls']:
+                            if refs and d_['ref'] == refs[0]:
+                                return (f.types[d_['t']] or '').replace('const ', '').strip(), refs[0], i
+        return None, None, None
+    rts = [g for g in P.fns.values() if g.short == 'read_timestamp' and g.body is not None]
+    rff = [g for g in P.fns.values() if g.short == 'read_from_file' and g.body is not None]
+    if rts and rff:
+        t1, v1, c1 = first_read_type(rts[0])
+        t2, v2, c2 = first_read_type(rff[0])
+        signed64 = lambda t: t in ('int64_t', 'long', 'long long', 'std::int64_t', 'time_t', '__int64_t')
+        okt = t1 is not None and t2 is not None and signed64(t1) and signed64(t2)
+        if okt:
+            # and the comparison with now is made on that variable itself, not on a converted copy
+            cmps_ = [i for i in rts[0].all_nodes() if rts[0].N(i)['k'] == 'BinaryOperator' and rts[0].N(i).get('op') in ('<', '<=', '>', '>=') and v1 in rts[0].subtree_refs(i)]
+            okt = bool(cmps_) and all(not [j for j in rts[0].walk(i) if rts[0].N(j)['k'] in ('CStyleCastExpr', 'CXXStaticCastExpr', 'CXXFunctionalCastExpr') and 'unsigned' in (rts[0].type_of(rts[0].N(j)) or '') + ('uint' if 'uint' in (rts[0].type_of(rts[0].N(j)) or '') else '')] for i in cmps_)
+        ctx.check(okt, R7, 'read_timestamp:deadline-read-as-the-signed-field-load-reads', 'gc reads the deadline as %r, load as %r: a header with the top bit set is "expired" for load and "far in the future" for gc (never collected)' % (t1, t2), rts[0].where)
+    ctx.floor(R7, 3)
     ctx.floor(R1, 20)
     ctx.floor(R2, 8)
     ctx.floor(R3, 16)
